@@ -54,10 +54,15 @@ fn distributed(i: usize, seed: u64, thorough: bool) -> Out {
     let n = 2 + i % 4;
     let lens_small = [1usize, 2, 7, 63, 64, 65, 127, 128, 129];
     let lens_big = [1000usize, 3099, 3100, 5000];
-    let l_and = if n == 2 && i % 8 == 0 { lens_big[(i / 8) % if thorough { 4 } else { 3 }] } else if n == 3 && i % 23 == 1 && thorough { 1000 } else if n <= 3 { lens_small[(i / 4) % lens_small.len()] } else { [1usize, 2, 7, 33][(i / 4) % 4] };
+    let l_and = if n == 2 && (i == 0 || (thorough && i == 8)) {
+        280_000 + i // bucket size 3
+    } else if n == 3 && thorough && i == 1 {
+        280_001
+    } else if n == 2 && i % 8 == 0 { lens_big[(i / 8) % if thorough { 4 } else { 3 }] } else if n == 3 && i % 23 == 1 && thorough { 1000 } else if n <= 3 { lens_small[(i / 4) % lens_small.len()] } else { [1usize, 2, 7, 33][(i / 4) % 4] };
     let l_rand = l_and.min(200) + rng.random_range(1..8);
     let combo_seed: u64 = rng.random();
     let (net, chans) = SimChan::new_set(n, None);
+    net.lock().unwrap().keep_bytes = false;
     let deltas: Vec<u128> = (0..n).map(|_| rng.random()).collect();
     let res = {
         let mut futs: Vec<PartyFut<'_, Result<PartyRes, String>>> = vec![];
@@ -315,8 +320,8 @@ fn dealer_mpc(i: usize, seed: u64) -> Out {
 pub fn run(tier: &str, seed: u64) -> i32 {
     let thorough = tier == "thorough";
     let mut rep = Report::new("C10", tier, seed, "exploration");
-    rep.rule = "distributed preprocessing through the wrappers (coin tosses, fashare, beaver_aand as gen_auth_bits calls them) for n=2..5 and batch lengths {1,2,7,63,64,65,127,128,129} (n<=3), {1000,3099,3100(,5000)} (n=2: bucket sizes 5 and 4), left/right shares = public random linear combinations of fresh shares incl. all-zero and equal left/right; trusted dealer: a harness client speaks the dealer protocol directly (n=2..5) and mpc with the dealer is compared with the clear-text evaluator. Oracle: for every share and ordered pair (i,j) MAC_i[j] == key_j[i] ^ (bit_i & delta_j); XOR z == (XOR a) & (XOR b); multi-party coins equal at all parties, pairwise coins equal within and different across pairs. distinct = (provider, n, batch length class); every case is non-trivial".into();
-    rep.assumptions = vec!["bucket size 3 (>= 280000 triples per batch) is exercised only in the thorough tier for n=2 when PV_C10_HUGE=1 (memory / time)".into()];
+    rep.rule = "distributed preprocessing through the wrappers (coin tosses, fashare, beaver_aand as gen_auth_bits calls them) for n=2..5 and batch lengths {1,2,7,63,64,65,127,128,129} (n<=3), {1000,3099,3100(,5000)} and 280000 (n=2: bucket sizes 5, 4 and 3), left/right shares = public random linear combinations of fresh shares incl. all-zero and equal left/right; trusted dealer: a harness client speaks the dealer protocol directly (n=2..5) and mpc with the dealer is compared with the clear-text evaluator. Oracle: for every share and ordered pair (i,j) MAC_i[j] == key_j[i] ^ (bit_i & delta_j); XOR z == (XOR a) & (XOR b); multi-party coins equal at all parties, pairwise coins equal within and different across pairs. distinct = (provider, n, batch length class); every case is non-trivial".into();
+    rep.assumptions = vec!["bucket size 3 (>= 280000 triples per batch) is exercised once for n=2 in quick, and for n=2 and n=3 in thorough".into()];
     let n_dist = if thorough { 960 } else { 320 };
     let n_dd = if thorough { 640 } else { 192 };
     let n_dm = if thorough { 480 } else { 120 };
